@@ -637,3 +637,310 @@ C14_ASSUME = ["a conn.Read returns between 1 and len(p) bytes or an error (net.C
               "activeTCPConn is driven over real loopback sockets in real time with a small case set; the chunking there is whatever the kernel delivers"]
 
 PLANS = {"C14": c14}
+
+
+# ================================================================ C15: TCP mux
+
+MUX_BEHAVIOURS = ["known", "unknown", "late", "garbage", "nonbinding", "nouser", "oversize", "silent", "earlyclose"]
+MUX_CLASSES = ["known", "unknown", "garbage", "silent", "earlyclose"]     # one bad-first-frame class stands for all four in the quick model check
+MUX_INVARIANTS = ["TypeOK", "RoutedByFirstUfrag", "RepliesOnSameConn", "BadFirstFrameClosed", "ProvisionalExpires", "WgCounts",
+                  "CloseCompletes", "CloseProgress"]
+MUX_PARTS = {"RoutedSafe": "RoutedByFirstUfrag", "RepliesRouted": "RoutedByFirstUfrag", "RoutedComplete": "RoutedByFirstUfrag",
+             "HandleAlive": "RoutedByFirstUfrag", "NoSpuriousClose": "RoutedByFirstUfrag",
+             "BadFirstFrameClosed": "BadFirstFrameClosed", "ProvisionalExpires": "ProvisionalExpires",
+             "CloseCompletes": "CloseCompletes", "GetAfterClose": "CloseCompletes"}
+
+
+def mux_consts(clients, behaviours, **kw):
+    d = {"Clients": clients, "Behaviours": "{" + ", ".join(q(b) for b in behaviours) + "}",
+         "MaxPc": "4", "RB": "1", "MaxLater": "1", "MaxGet": "2", "MaxRm": "1", "MaxAdv": "2", "MaxReply": "0",
+         "MaxExt": "4", "MaxRaces": "1"}
+    d.update({k: str(x) for k, x in kw.items()})
+    return d
+
+
+def mux_model_check(work, stats, tier, timeout):
+    """TcpMux exhaustively: 2 clients x behaviour classes x interleavings with Get/Remove/Close/Advance."""
+    quick = tier == "quick"
+    d = mux_consts("MCClients", MUX_CLASSES if quick else MUX_BEHAVIOURS[:3] + ["garbage", "oversize", "silent", "earlyclose"],
+                   MaxExt=4 if quick else 6, MaxRaces=1 if quick else 2, MaxReply=0 if quick else 1, MaxPc=4 if quick else 5)
+    mod = write_module(work.dir, "MCM", "MC_TcpMux", d,
+                       ["SPECIFICATION Spec", "CHECK_DEADLOCK FALSE", "SYMMETRY MCSym"] + ["INVARIANT " + i for i in MUX_INVARIANTS])
+    # write_module maps every constant through an operator; the model values of MC_TcpMux are declared in the cfg
+    cfg = open(os.path.join(work.dir, mod + ".cfg")).read().replace("CONSTANTS\n", "CONSTANTS\n  c1 = c1\n  c2 = c2\n", 1)
+    open(os.path.join(work.dir, mod + ".cfg"), "w").write(cfg)
+    r = v.require(v.tlc(work.dir, mod, timeout=timeout), "TcpMux model check")
+    stats["states"] += r.distinct
+    stats["transitions"] += r.generated
+    run = {"module": "TcpMux", "constants": {k: x for k, x in d.items() if k != "Clients"}, "clients": 2, "distinct": r.distinct,
+           "generated": r.generated, "depth": r.depth, "wall_s": round(r.wall, 1), "invariants": MUX_INVARIANTS,
+           "violated": sorted(set(r.invariants_violated)), "complete": r.completed}
+    stats["model_runs"].append(run)
+    if r.invariants_violated:
+        # a design-level counterexample: only a real trace can turn it into a verdict (DESIGN 2.2)
+        stats.setdefault("model_counterexamples", []).append({"invariants": sorted(set(r.invariants_violated))})
+        sys.stderr.write("MODEL-COUNTEREXAMPLE spec=TcpMux invariants=%s (not a verdict)\n" % sorted(set(r.invariants_violated)))
+    return r
+
+
+STEP_RE = re.compile(r'^State \d+: <(\w+)(?:\((.*?)\))? line')
+
+
+def mux_stale_counterexample(work, stats, timeout=120):
+    """TLC's shortest behaviour in which a watcher goroutine unlists a packet conn that is not its own (NoStaleRemoval fails
+    in the model - a design-level counterexample), as a schedule for the real mux, followed by a client for that ufrag."""
+    d = mux_consts("{1, 2}", ["known", "silent"], MaxExt=3, MaxRaces=2)
+    mod = write_module(work.dir, "MCMstale", "TcpMuxSim", d, ["INIT SimInit", "NEXT SimNext", "CHECK_DEADLOCK FALSE", "INVARIANT StaleDump"])
+    r = v.require(v.tlc(work.dir, mod, timeout=timeout, workers=1), "TcpMux NoStaleRemoval")
+    stats["states"] += r.distinct
+    stats["transitions"] += r.generated
+    cex = []
+    for line in r.out.splitlines():
+        m = BEH_RE.search(line)
+        if m:
+            cex.append(json.loads(m.group(1).replace('\\"', '"')))
+    stats["model_runs"].append({"module": "TcpMux", "instance": "NoStaleRemoval (design-level counterexamples expected), 3 environment actions",
+                                "distinct": r.distinct, "generated": r.generated, "wall_s": round(r.wall, 1),
+                                "violated": ["NoStaleRemoval"] if cex else [], "counterexample_states": len(cex)})
+    if not cex:
+        return None
+    b = min(cex, key=lambda x: len(x["acts"]))
+    acts = []
+    for a in b["acts"]:
+        x = {"ev": a["ev"], "w": a["w"]}
+        for k in ("c", "u", "h"):
+            if a.get(k):
+                x[k] = a[k]
+        acts.append(x)
+    u = next((a["u"] for a in reversed(acts) if a["ev"] == "Get"), "u1")
+    tail = [{"ev": "Dial", "c": 1, "w": True}, {"ev": "Send", "c": 1, "w": True}]
+    stats["near_miss_schedules"] += 1
+    return {"beh": ["known" if u == "u1" else "unknown", "silent"], "rb": 1, "later": 1, "acts": acts + tail, "tag": "tlc-cex NoStaleRemoval"}
+
+
+BEH_RE = re.compile(r'<<"BEH", "(.*)">>\s*$')
+
+
+def mux_simulate(work, stats, n, seed, timeout=120):
+    """Behaviours of TcpMux from TLC's simulation mode (3 clients, all behaviours, larger budgets) as scenarios."""
+    d = mux_consts("{1, 2, 3}", MUX_BEHAVIOURS, MaxPc=8, MaxLater=2, MaxGet=3, MaxRm=2, MaxAdv=4, MaxReply=2, MaxExt=14, MaxRaces=2)
+    mod = write_module(work.dir, "SIMM", "TcpMuxSim", d, ["INIT SimInit", "NEXT SimNext", "INVARIANT Dump", "CHECK_DEADLOCK FALSE"])
+    workers = 1      # one worker: the behaviours are a function of the seed
+    r = v.tlc(work.dir, mod, workers=workers, timeout=timeout, simulate="num=%d" % max(1, n // workers + 1), depth=400, seed=seed)
+    if r.error:
+        sys.stderr.write(r.out[-2000:])
+        raise v.Inconclusive("TcpMux simulation: TLC %s" % r.error)
+    seen, scs = set(), []
+    for line in r.out.splitlines():
+        m = BEH_RE.search(line)
+        if not m:
+            continue
+        txt = m.group(1).replace('\\"', '"')
+        if txt in seen:
+            continue
+        seen.add(txt)
+        b = json.loads(txt)
+        if len(b["acts"]) < 3:
+            continue
+        acts = []
+        for a in b["acts"]:
+            x = {"ev": a["ev"], "w": a["w"]}
+            for k in ("c", "u", "h"):
+                if a.get(k):
+                    x[k] = a[k]
+            acts.append(x)
+        scs.append({"beh": b["beh"], "rb": 1, "later": 2, "acts": acts, "tag": "tlc-simulate"})
+    stats["model_runs"].append({"module": "TcpMuxSim", "mode": "simulate", "behaviours": len(scs), "wall_s": round(r.wall, 1),
+                                "constants": {k: x for k, x in d.items()}})
+    return scs[:n]
+
+
+def run_mux_driver(work, binary, scs, tag, stats, timeout=240):
+    import time
+    cin, cout, cst = (work.path("%s-%s" % (tag, x)) for x in ("in.json", "out.ndjson", "stats.json"))
+    json.dump(scs, open(cin, "w"))
+    jp = work.path(tag + "-job.json")
+    json.dump({"cases": cin, "out": cout, "stats": cst}, open(jp, "w"))
+    t0 = time.time()
+    rc, out, wall = v.run_harness(binary, "TestMux", jp, timeout=timeout)
+    if rc != 0 or not os.path.exists(cst):
+        sys.stderr.write(out[-3000:])
+        raise v.Inconclusive("mux driver failed (rc %d)" % rc)
+    st = json.load(open(cst))
+    stats["wall"]["driver_" + tag] = round(time.time() - t0, 1)
+    stats["real_traces"] += st["scenarios"]
+    stats["real_steps"] += st["events"]
+    stats["skipped_actions"] += st["skipped"]
+    stats["bubble_leaks"] += st["leaks"]
+    return cout
+
+
+def mux_features(part, lines, idx):
+    """Shape of the offending observation: which part of the predicate, before which action, and whether the ufrag
+    concerned was re-obtained by GetConnByUfrag right after RemoveConnByUfrag without the mux becoming idle in between."""
+    start = max(i for i in range(idx + 1) if lines[i]["ev"] == "Reset")
+    e = lines[idx]
+    f = {"predicate": MUX_PARTS[part], "part": part}
+    # ufrags whose current packet conn was registered (by GetConnByUfrag or by a first frame naming the ufrag) after
+    # RemoveConnByUfrag(u) without the mux having become idle in between: the removed conn's watcher goroutine is still due
+    burst = set()
+    pending = set()    # ufrags removed since the driver last waited for quiescence
+    beh = lines[start]["beh"]
+    for i in range(start + 1, idx):
+        x = lines[i]
+        if x["w"]:
+            pending.clear()
+        u = None
+        if x["ev"] == "Get" and x["ok"]:
+            u = x["u"]
+        elif (x["ev"] == "Dial" and beh[x["c"] - 1] in ("known", "unknown")) or (x["ev"] == "Send" and x["k"] == 1):
+            u = "u9" if beh[x["c"] - 1] == "unknown" else "u1"
+        if u is not None and u in pending:
+            burst.add(u)
+        if x["ev"] == "Remove":
+            burst.discard(x["u"])
+            pending.add(x["u"])
+    f["reregistered_right_after_remove"] = bool(burst)
+    if e["ev"] == "Exit":
+        f["leak"] = e["leak"]
+    f["trace"] = {"scenario": lines[start]["id"], "line": idx - start, "before": e["ev"], "beh": beh, "burst_ufrags": sorted(burst), "note": e.get("note", "")[:200]}
+    return f
+
+
+def mux_judge(work, verdict, stats, outfile, tag, scs, timeout=600):
+    lines = v.read_ndjson(outfile)
+    mod = write_module(work.dir, "MONM_" + tag, "TcpMuxMon",
+                       {"TraceFile": q(outfile), "MaxClients": "3", "Check": "{" + ", ".join(q(p) for p in MUX_PARTS) + "}"},
+                       ["SPECIFICATION Spec", "INVARIANT Report", "CHECK_DEADLOCK FALSE"])
+    r = v.tlc(work.dir, mod, workers=1, timeout=timeout)
+    if r.error or not r.clean or r.distinct != len(lines) + 1:
+        sys.stderr.write(r.out[-3000:])
+        raise v.Inconclusive("mux monitor run %s did not complete (%s, %d states for %d lines)" % (tag, r.error, r.distinct, len(lines)))
+    stats["monitor_states"] += r.distinct
+    stats["monitor_predicates_evaluated"] += r.distinct * len(MUX_PARTS)
+    byid = {s["id"]: s for s in scs}
+    seen = {}
+    for part, line in r.prints("VIOL"):
+        idx = int(line) - 1
+        feat = mux_features(part, lines, idx)
+        key = json.dumps({k: x for k, x in feat.items() if k != "trace"}, sort_keys=True)
+        seen[key] = seen.get(key, 0) + 1
+        if seen[key] > 3 and not v.match_known(verdict.known, feat):
+            stats["violations_not_listed"] = stats.get("violations_not_listed", 0) + 1
+            continue
+        start = max(i for i in range(idx + 1) if lines[i]["ev"] == "Reset")
+
+        def writer(path, start=start, idx=idx, part=part):
+            json.dump({"property": "C15", "family": FAMILY, "predicate": MUX_PARTS[part], "part": part, "driver": "TestMux",
+                       "scenario": byid.get(lines[start]["id"]), "events": lines[start:idx + 1]}, open(path, "w"))
+        verdict.report(feat, writer)
+    return lines
+
+
+def mux_conformance(work, stats, lines, tag, max_traces, timeout=600):
+    """TcpMuxTrace over the first max_traces recorded traces (evidence, not verdict)."""
+    starts = [i for i, e in enumerate(lines) if e["ev"] == "Reset"]
+    if not starts:
+        return
+    end = starts[max_traces] if len(starts) > max_traces else len(lines)
+    sel = lines[:end]
+    ntr = len([i for i in starts if i < end])
+    path = work.path("tr-%s.ndjson" % tag)
+    write_ndjson(path, sel)
+    d = mux_consts("{1, 2, 3}", MUX_BEHAVIOURS, MaxPc=9, MaxLater=2, MaxGet=99, MaxRm=99, MaxAdv=99, MaxReply=99, MaxExt=999, MaxRaces=999)
+    d["TraceFile"] = q(path)
+    mod = write_module(work.dir, "TRM_" + tag, "TcpMuxTrace", d,
+                       ["SPECIFICATION TSpec", "INVARIANT HWM", "POSTCONDITION Accepted", "CHECK_DEADLOCK FALSE"])
+    r = v.tlc(work.dir, mod, workers=1, timeout=timeout, dfs=True)
+    if r.error:
+        sys.stderr.write(r.out[-2000:])
+        raise v.Inconclusive("mux trace validation %s: TLC %s" % (tag, r.error))
+    stats["trace_states"] = stats.get("trace_states", 0) + r.distinct
+    if r.clean:
+        stats["traces_validated_against_impl"] += ntr
+    else:
+        rej = r.prints("TRACE_REJECTED_AT")
+        at = int(rej[0][0]) if rej else 0      # highest line position reached: that line could not be explained
+        ok = len([i for i in starts if i + 1 <= at]) - 1
+        stats["traces_validated_against_impl"] += max(ok, 0)
+        stats["nonconforming_traces"] += 1
+        e = sel[at - 1] if 0 < at <= len(sel) else {}
+        s0 = max([i for i in starts if i < at] or [0])
+        msg = "NONCONFORMANCE spec=TcpMux line=%d (step %d of scenario %s) ev=%s" % (at, at - 1 - s0, sel[s0].get("id"), {k: e.get(k) for k in ("ev", "c", "u", "h", "w")})
+        stats["nonconformance"].append(msg)
+        sys.stderr.write(msg + "\n")
+
+
+def c15(tier, seed):
+    import time
+    quick = tier == "quick"
+    verdict = v.Verdict("C15", tier, seed)
+    stats = new_stats()
+    stats.update({"real_traces": 0, "real_steps": 0, "skipped_actions": 0, "bubble_leaks": 0, "monitor_states": 0})
+    rng = random.Random(seed)
+    with v.Work("C15") as work:
+        work.copy_specs(FAMILY)
+        binary = v.build_harness(work, pkg=FAMILY)
+        t0 = time.time()
+        mux_model_check(work, stats, tier, timeout=150 if quick else 700)
+        stale = mux_stale_counterexample(work, stats)
+        stats["wall"]["model_check"] = round(time.time() - t0, 1)
+        t0 = time.time()
+        scs = ([stale] if stale else []) + MUX_DIRECTED + mux_simulate(work, stats, 150 if quick else 3000, seed)
+        stats["wall"]["simulate"] = round(time.time() - t0, 1)
+        for i, s in enumerate(scs):
+            s["id"] = i + 1
+            if s["tag"] == "tlc-simulate" and i % 5 == 4:      # the real code also with other receive-queue sizes
+                s["rb"] = rng.choice([0, 8])
+        cout = run_mux_driver(work, binary, scs, "mux", stats)
+        t0 = time.time()
+        lines = mux_judge(work, verdict, stats, cout, "mux", scs)
+        stats["wall"]["monitor"] = round(time.time() - t0, 1)
+        t0 = time.time()
+        conf = [s for s in scs if s["rb"] == 1]
+        # conformance on the scenarios whose receive queue has the size the model was instantiated with
+        keep, ids = [], {s["id"] for s in conf}
+        cur = False
+        for e in lines:
+            if e["ev"] == "Reset":
+                cur = e["id"] in ids
+            if cur:
+                keep.append(e)
+        mux_conformance(work, stats, keep, "mux", 40 if quick else 600, timeout=200 if quick else 800)
+        stats["wall"]["trace_validation"] = round(time.time() - t0, 1)
+        first = next((i for i, e in enumerate(lines) if e["ev"] == "Reset" and i > 0), len(lines))
+        stats["samples"].append({"scenario": {k: scs[0][k] for k in ("beh", "rb", "acts", "tag")},
+                                 "events": [{k: e[k] for k in ("ev", "c", "u", "h", "k", "ok", "w", "pre")} for e in lines[:min(first, 14)]]})
+    stats["predicates"] = sorted(set(MUX_PARTS.values()))
+    verdict.coverage.update(stats)
+    verdict.assumptions = C15_ASSUME
+    return verdict.finish()
+
+
+# directed scenarios replayed in every run (the stale-watcher history also comes from TLC's counterexample above)
+MUX_DIRECTED = [
+    {"beh": ["known", "silent"], "rb": 1, "later": 1, "tag": "directed remove-then-get",
+     "acts": [{"ev": "Get", "u": "u1", "w": True}, {"ev": "Remove", "u": "u1", "w": True}, {"ev": "Get", "u": "u1", "w": False},
+              {"ev": "Dial", "c": 1, "w": True}, {"ev": "Send", "c": 1, "w": True}]},
+    {"beh": ["known", "unknown", "garbage"], "rb": 1, "later": 2, "tag": "directed routing",
+     "acts": [{"ev": "Get", "u": "u1", "w": True}, {"ev": "Dial", "c": 1, "w": True}, {"ev": "Send", "c": 1, "w": True},
+              {"ev": "Dial", "c": 2, "w": True}, {"ev": "Dial", "c": 3, "w": True}, {"ev": "Reply", "h": 1, "c": 1, "w": True},
+              {"ev": "Send", "c": 2, "w": True}, {"ev": "Advance", "w": True}, {"ev": "Get", "u": "u9", "w": True},
+              {"ev": "Reply", "h": 2, "c": 2, "w": True}, {"ev": "Send", "c": 1, "w": True}, {"ev": "CClose", "c": 1, "w": True}]},
+    {"beh": ["unknown", "silent", "late"], "rb": 1, "later": 1, "tag": "directed timers",
+     "acts": [{"ev": "Dial", "c": 1, "w": True}, {"ev": "Dial", "c": 2, "w": True}, {"ev": "Dial", "c": 3, "w": True},
+              {"ev": "Advance", "w": True}, {"ev": "Send", "c": 3, "w": True}, {"ev": "Advance", "w": True},
+              {"ev": "Get", "u": "u1", "w": True}, {"ev": "Advance", "w": True}, {"ev": "Get", "u": "u9", "w": True}]},
+    {"beh": ["known", "oversize", "nouser"], "rb": 1, "later": 1, "tag": "directed close with clients in every phase",
+     "acts": [{"ev": "Dial", "c": 1, "w": True}, {"ev": "Dial", "c": 2, "w": True}, {"ev": "Dial", "c": 3, "w": False},
+              {"ev": "Close", "w": False}]},
+]
+
+C15_ASSUME = ["TCP connections are net.Pipe pairs behind a fake net.Listener inside a testing/synctest bubble (virtual time, exact quiescence); "
+              "a locally closed connection reports net.ErrClosed like a TCP socket",
+              "one IPv4 local address; two ufrags (one the application asks for, one it does not); up to three clients per scenario",
+              "the goroutines of the mux cannot be scheduled individually (no yield points in tcp_mux.go): interleavings below the "
+              "granularity of a driver action are explored exhaustively in the model, on the real code only as the Go scheduler produces them",
+              "time advances in steps of 16 s, so a 30 s timer fires during the second step after it was armed"]
+
+PLANS["C15"] = c15
